@@ -17,4 +17,44 @@ PROPS = {
                        'correspondence: step equality of the Lean functions with encodeContents/decodeContents/decodeSingleContent/'
                        'encodeUtpContent/decodeUtpContent on every generated case',
     },
+    'C04': {
+        'lean_targets': ['Shisui.Props.C04'],
+        'min_obligations': 6,
+        'runs': [{'name': 'store', 'harness': ['store'], 'driver': ['store', 'C04']}],
+        'rule': 'random put/get/overwrite/reopen histories on the real pebble store over an in-memory file system (random and zero node '
+                'ids; ids fresh, repeated, differing in one bit / first byte / last byte; value sizes 0 .. >capacity); every slice returned '
+                'by Get is kept and re-compared at the end of the history and after cache churn; non-trivial = the store was non-empty '
+                'when the operation ran; distinct = distinct operation lines',
+        'trusted': ['pebble (ordered map, atomic batches) is modelled as a sorted association list'],
+        'assumptions': ['content ids are 32 bytes and differ from the node id (as the property states)'],
+        'explanation': 'refinement theorems (Sv.put_refines and its lift to every history) + step equality of get/put results with the '
+                       'executable model StX + monitors get_only_put, returned_bytes_stable evaluated on the real store',
+    },
+    'C05': {
+        'lean_targets': ['Shisui.Props.C05'],
+        'min_obligations': 6,
+        'runs': [{'name': 'store', 'harness': ['store'], 'driver': ['store', 'C05']}],
+        'rule': 'same histories as C04 (capacities 1..5 MB, item sizes 0, exactly 5% of capacity, 5% - k, random, larger than the '
+                'capacity; one third of the histories contain over-size items); after every put the harness lists the database: item '
+                'count, bytes held, persisted counter, farthest kept key, dropped keys; plus two forced two-put interleavings through '
+                'the yield hook; non-trivial = the store was non-empty; distinct = distinct operation lines',
+        'trusted': ['pebble (ordered iteration, atomic batch) modelled as a sorted list', 'float64(cap)*0.05 modelled as cap/20 (exact for capacities that are multiples of 1 MB below 2^53; compared on every put)'],
+        'assumptions': ['32-byte content ids'],
+        'explanation': 'invariant theorems over all sequential put histories (St.run_inv, run_bounded) + exact step equality with the '
+                       'executable model + monitors counter_ge_held, held_le_cap, prune_frees_5pct, farthest_first on the real store; the '
+                       'concurrent clause is refuted by theorem and reproduced on the real store (known finding)',
+    },
+    'C06': {
+        'lean_targets': ['Shisui.Props.C06'],
+        'min_obligations': 7,
+        'runs': [{'name': 'store', 'harness': ['store'], 'driver': ['store', 'C06']},
+                 {'name': 'inrange', 'harness': ['inrange'], 'driver': ['inrange']}],
+        'rule': 'store histories as C04/C05 with adversarial ids (tiny distance in one byte order, huge in the other); in-range triples: '
+                'random, window of +-2 around the distance, around every power of two, radii below 600 and the maximum; non-trivial = '
+                'non-empty store / every triple; distinct = distinct lines',
+        'trusted': ['uint256 arithmetic modelled by Nat'],
+        'assumptions': ['32-byte content ids'],
+        'explanation': 'theorems about the ideal (big-endian) model over all histories; the real store is compared exactly with the '
+                       'executable model with the little-endian switch ON (the known finding), so any other divergence is reported',
+    },
 }
